@@ -53,6 +53,10 @@ type XCase struct {
 	Clustered bool     `json:"clustered,omitempty"`
 	Epa       bool     `json:"epa,omitempty"`
 	ServerUp  bool     `json:"server_up"`
+	Appfmt    string   `json:"appfmt,omitempty"`     // attributes of the project application: format strings the views read
+	Epfmt     string   `json:"epfmt,omitempty"`
+	TitleAttr string   `json:"title_attr,omitempty"`
+	Title     string   `json:"title,omitempty"`      // -t
 	Source    string   `json:"source,omitempty"` // literal cases only: the same model as Sysl source text, given to the command as a file instead of the compiled model on stdin
 }
 
@@ -163,6 +167,29 @@ func (x *XCase) wellFormed() bool {
 	return t != nil && t.f != nil && compiles(x.Filter)
 }
 func (x *XCase) hasProject() bool { return x.ProjFlag == project }
+
+// the format strings the views will use (what the command tries up front since 8952ebf), by the harness's own list of
+// the malformed ones it generates
+var xBadFormats = []string{"%(", "%(appname", "%(a=='", "%(a~/(/)"}
+
+func badFormat(f string) bool {
+	for _, b := range xBadFormats {
+		if f == b {
+			return true
+		}
+	}
+	return false
+}
+func (x *XCase) formatsOK() bool {
+	title := x.Title
+	if x.hasProject() && x.TitleAttr != "" {
+		title = x.TitleAttr
+	}
+	if x.hasProject() && (badFormat(x.Appfmt) || badFormat(x.Epfmt)) {
+		return false
+	}
+	return !badFormat(title)
+}
 func (x *XCase) passes(i int) bool {
 	n, _ := x.outName(i)
 	return x.Filter == "" || regexp.MustCompile(x.Filter).MatchString(n)
@@ -288,6 +315,24 @@ func genXCase(r *common.Rng) *XCase {
 	default:
 		x.ExclGiven = []int{r.Intn(n)}
 	}
+	// format strings: mostly absent, some well-formed (labels of apps stay the names), 1/10 of the cases one malformed
+	x.Appfmt = []string{"", "", "", "%(appname)"}[r.Intn(4)]
+	x.Epfmt = []string{"", "", "%(@nosuchattr)", "%(@nosuchattr?x)"}[r.Intn(4)] // well-formed and empty: a non-empty label is glued to the alias on arrows inside one app
+	x.TitleAttr = []string{"", "", "", "Project view %(epname)"}[r.Intn(4)]
+	x.Title = []string{"", "", "Title %(eplongname?%(eplongname)|%(epname))"}[r.Intn(3)]
+	if r.Chance(1, 10) {
+		bad := xBadFormats[r.Intn(len(xBadFormats))]
+		switch r.Intn(4) {
+		case 0:
+			x.Appfmt = bad
+		case 1:
+			x.Epfmt = bad
+		case 2:
+			x.TitleAttr = bad
+		default:
+			x.Title = bad
+		}
+	}
 	switch r.Intn(16) {
 	case 0:
 		x.ProjFlag = "Nope"
@@ -360,6 +405,9 @@ func (x *XCase) args(srv *xServer) []string {
 	for _, e := range x.ExclGiven {
 		a = append(a, "-e", x.Base.an(e))
 	}
+	if x.Title != "" {
+		a = append(a, "-t", x.Title)
+	}
 	if x.Clustered {
 		a = append(a, "--clustered")
 	}
@@ -378,6 +426,11 @@ func (x *XCase) module() []byte {
 	m := x.gen().module()
 	for i := range x.Views {
 		m.Apps[project].Endpoints[viewName(i)].LongName = x.Long[i]
+	}
+	for k, v := range map[string]string{"appfmt": x.Appfmt, "epfmt": x.Epfmt, "title": x.TitleAttr} {
+		if v != "" {
+			m.Apps[project].Attrs[k] = sattr(v)
+		}
 	}
 	b, err := proto.Marshal(m)
 	if err != nil {
@@ -549,7 +602,7 @@ func oneX(ctx *common.Ctx, cs *common.Cases, x *XCase, res *xResult) {
 	obs := ""
 	if panicked {
 		kind, _ := xPanicKind(x, res.stderr)
-		if x.wellFormed() || kind < 0 {
+		if x.wellFormed() || kind < 0 || !x.formatsOK() {
 			ctx.Fail("cmd:panic", desc+" died with a Go panic: "+strings.ReplaceAll(res.stderr[:min(len(res.stderr), 300)], "\n", " "), rp)
 		} else {
 			ctx.Hist("beyond-property:panic-on-malformed-option")
@@ -564,7 +617,16 @@ func oneX(ctx *common.Ctx, cs *common.Cases, x *XCase, res *xResult) {
 		// ---- who owns which name
 		owners := map[string][]int{}
 		allGood := true
-		if x.wellFormed() {
+		if !x.formatsOK() {
+			// a malformed format string of the project application / of -t: the command's error, nothing generated
+			ctx.Hist("command:malformed-project-format")
+			if res.status == 0 {
+				ctx.Fail("cmd:malformed-format-accepted", desc+" exits with status 0 although a format string the views use (appfmt / epfmt / title) cannot be parsed", rp)
+			}
+			for name := range res.files {
+				ctx.Fail("cmd:unexpected-file", fmt.Sprintf("%s wrote %q although it reports a malformed format string", desc, name), rp)
+			}
+		} else if x.wellFormed() {
 			for i := 0; i < nEps; i++ {
 				if x.passes(i) {
 					n, _ := x.outName(i)
@@ -715,11 +777,19 @@ func oneX(ctx *common.Ctx, cs *common.Cases, x *XCase, res *xResult) {
 	if x.Filter != "" {
 		rxEntry(x.Filter, outVals)
 	}
+	seenRx := map[string]bool{x.Filter: x.Filter != ""}
 	if t := xTemplate(x.Output); t != nil {
 		for _, p := range t.rxs {
-			if p != x.Filter {
+			if !seenRx[p] {
+				seenRx[p] = true
 				rxEntry(p, attrVals)
 			}
+		}
+	}
+	for _, f := range []string{x.Appfmt, x.Epfmt, x.TitleAttr, x.Title} {
+		if f == "%(a~/(/)" && !seenRx["("] { // the one format with a regular expression inside
+			seenRx["("] = true
+			rxEntry("(", attrVals)
 		}
 	}
 	var unw []string
@@ -730,7 +800,11 @@ func oneX(ctx *common.Ctx, cs *common.Cases, x *XCase, res *xResult) {
 	}
 	sort.Strings(unw)
 	env := fmt.Sprintf("(EN %s [%s])", gb(x.ServerUp), strings.Join(unw, ";"))
-	term := fmt.Sprintf("([%s], %s, %s, [%s], [%s], %s, %s)", strings.Join(mg, ";"), c.gvinfo(lt), cli, strings.Join(eps, ";"), strings.Join(rxt, ";"), env, obs)
+	pf := fmt.Sprintf("(PF %s %s %s %s)", gstr(x.Appfmt), gstr(x.Epfmt), gstr(x.TitleAttr), gstr(x.Title))
+	if !x.hasProject() { // no such application: the nil-safe getters read no attribute
+		pf = fmt.Sprintf("(PF \"\" \"\" \"\" %s)", gstr(x.Title))
+	}
+	term := fmt.Sprintf("([%s], %s, %s, %s, [%s], [%s], %s, %s)", strings.Join(mg, ";"), c.gvinfo(lt), cli, pf, strings.Join(eps, ";"), strings.Join(rxt, ";"), env, obs)
 	ctx.Count(term, len(res.files) > 0)
 	if cs != nil {
 		cs.Add(term, rp)
@@ -788,7 +862,21 @@ func literalXCases() []*XCase {
 		y.Source = fmt.Sprintf(literalSource, x.Views[0].OutAttr, x.Views[1].OutAttr)
 		out = append(out, &y)
 	}
-	return out
+	// format strings of the project application (tried up front since 8952ebf)
+	bad1 := mk("%(epname).puml", "", nil, "x.puml", "y.puml")
+	bad1.Appfmt = "%("
+	bad2 := mk("%(epname", "(", nil, "x.puml", "y.puml") // everything malformed: the format error comes first
+	bad2.Epfmt = "%(a~/(/)"
+	bad3 := mk("%(epname).puml", "", nil, "x.puml", "y.puml") // no such project, a malformed -t: still an error
+	bad3.ProjFlag = "Nope"
+	bad3.Base.ExclCLI = bad3.effExclude()
+	bad3.Title = "%(appname"
+	bad4 := mk("%(epname).puml", "", nil, "x.puml", "y.puml") // a malformed -t that the title attribute overrides
+	bad4.Title = "%(appname"
+	bad4.TitleAttr = "Project view %(epname)"
+	good := mk("%(epname).puml", "", nil, "x.puml", "y.puml")
+	good.TitleAttr, good.Epfmt, good.Appfmt = "Project view %(epname)", "%(@nosuchattr)", "%(appname)"
+	return append(out, bad1, bad2, bad3, bad4, good)
 }
 
 const literalSource = `A:
@@ -825,7 +913,8 @@ Definition NM f p s i := {| n_full := f; n_pre := p; n_short := s; n_first := i 
 Definition VI n m a e p := {| names := n; mixins := m; app_r := a; ep_r := e; pubsub := p |}.
 Definition CL o j i f x c e := {| c_output := o; c_project := j; c_proj_id := i; c_filter := f; c_exclude := x; c_clustered := c; c_epa := e |}.
 Definition PE n l a li ex pt v d r := {| pe_name := n; pe_long := l; pe_attrs := a; pe_listed := li; pe_ex := ex; pe_pt := pt; pe_view := v; pe_di := d; pe_rb := r |}.
-Definition EN s u := {| server_up := s; unwritable := u |}.`
+Definition EN s u := {| server_up := s; unwritable := u |}.
+Definition PF a e t c := {| pf_appfmt := a; pf_epfmt := e; pf_title_attr := t; pf_title_cli := c |}.`
 	footer := `Definition M := Eval vm_compute in mismatches c14x_ok cases. Print M.`
 	cs := ctx.NewCases("C14X", header, "c14x_case", footer, 40)
 	n := 150
